@@ -6,8 +6,11 @@
      CBLAS daxpy_ with da = 1 (element-wise, no reassociation)
      the (nz_i+1)*eps weights and the dlacon_ loop with the KASE=1/2 operators, equilibration factors,
      normalisation by max |x_i| (scaled)
-   dgstrs is NOT modelled: it is an abstract solve carried by a state S (pure function in the theorems,
-   a tape of recorded outputs of the real dgstrs in the correspondence check).
+   dgstrs is NOT modelled beyond its trans argument check (gstrs_info: NOTRANS, TRANS and - since the fix of
+   finding F3 - CONJ are accepted, CONJ meaning TRANS for real data): it is an abstract solve carried by a state S
+   (pure function in the theorems, a tape of recorded outputs of the real dgstrs in the correspondence check).
+   Complex twins at HEAD (not modelled, oracle only): c/zgsrfs use transc = 'C' for CONJ and transt = CONJ /
+   NOTRANS (conjugate-transpose operator for ?lacon_), c/zgstrs solve CONJ as conj(inv(A**T) conj(b)).
    Same abstract arithmetic as LaconModel.v (Q for theorems, PrimFloat for bit-exact comparison). *)
 Require Import ZArith List Bool QArith Floats.
 From SLU Require Import Consts LaconModel.
@@ -195,6 +198,10 @@ Fixpoint gsrfs_cols {S} (trans equed : Z) (R C : list T) (nrow : nat) (cols : co
   | _, _ => (s, [])
   end.
 
+(* dgstrs: "if ( trans != NOTRANS && trans != TRANS && trans != CONJ ) *info = -1;" *)
+Definition gstrs_info (trans : Z) : Z :=
+  if (trans =? c_NOTRANS) || (trans =? c_TRANS) || (trans =? c_CONJ) then 0 else -1.
+
 (* dgsrfs argument checks that matter here: info = -1 for an unknown trans; quick return for n = 0 / nrhs = 0 *)
 Definition gsrfs_info (trans : Z) : Z :=
   if (trans =? c_NOTRANS) || (trans =? c_TRANS) || (trans =? c_CONJ) then 0 else -1.
@@ -224,5 +231,5 @@ Definition gsrfs_replay (trans equed : Z) (R C : list T) (nrow : nat) (cols : li
            (eps safmin : T) (tape : list (list T)) (bs xs : list (list T)) :=
   let '(s, os) := gsrfs_cols A trans equed R C nrow cols eps safmin rtape_solve (mkRtape tape [])
                              (st_init A) bs xs in
-  (map cout_tuple os, rt_asked s, length (rt_rest s)).
+  (map cout_tuple os, rt_asked s, length (rt_rest s), map (fun a : Z * list T => gstrs_info (fst a)) (rt_asked s)).
 End REntry.
